@@ -5,6 +5,7 @@ From Coq Require Import ZArith Ascii String Bool List Lia.
 Import ListNotations.
 Require Import MD.Gen.CodecTables MD.Codec.Model MD.Codec.Proofs MD.Codec.RestartProofs.
 Require Import MD.Codec.XtcModel MD.Codec.XtcProofs MD.Codec.XtcFrameProofs MD.Codec.NumProofs MD.Codec.MdcrdProofs.
+Require Import MD.Codec.XtcBitsProofs.
 Open Scope Z_scope.
 
 (* Python "%w.pf" % x followed by float(): for EVERY width, precision and binary number the reader gets
@@ -177,6 +178,19 @@ Theorem bits_roundtrip : forall n v rest, 0 <= v < 2 ^ Z.of_nat n ->
   get_bits n (bits_of n v ++ rest) = Some (v, rest).
 Proof. exact XtcProofs.bits_roundtrip. Qed.
 Print Assumptions bits_roundtrip.
+
+(* the C bit buffer of encodebits (bytes, lastbits, lastbyte kept modulo 2^32, the unmasked
+   (lastbyte << 8) | (num >> (nb - 8)) included) appends exactly the num_of_bits low bits of num, most
+   significant first; xdrfile_write_opaque then gets those bits padded with zeros to a whole byte *)
+Theorem encodebits_refines : forall b n v, wok b -> 0 <= n <= 32 -> 0 <= v < 2 ^ n ->
+  wok (c_encodebits b n v) /\ wbits (c_encodebits b n v) = wbits b ++ bits_of (Z.to_nat n) v.
+Proof. exact XtcBitsProofs.c_encodebits_spec. Qed.
+Print Assumptions encodebits_refines.
+
+Theorem flush_refines : forall b, wok b -> Forall (fun x => 0 <= x < 256) (cb_bytes b) ->
+  bytes_to_bits (c_flush b) = wbits b ++ repeat false (Z.to_nat ((8 - cb_lastbits b) mod 8)).
+Proof. exact XtcBitsProofs.c_flush_spec. Qed.
+Print Assumptions flush_refines.
 
 (* decodeints inverts encodeints (mixed radix, multi-byte layout) whenever the group fits the bits used *)
 Theorem ints_roundtrip : forall nbits s0 sr n0 nr rest,
